@@ -118,6 +118,12 @@ Theorem C14F_patch_old_name_gone :
     exists m, m <> n /\ fst (type_patch S m) = n.
 Proof. exact patch_old_name_gone. Qed.
 
+(* without settings the model under settings IS the verified converter of Algo/Convert.v (C02F, C05F,
+   C03F), at every schema, name and state *)
+Theorem C14F_no_settings :
+  forall cls rid s nm s0, conv_s cls no_settings rid s nm s0 = conv cls rid s nm s0.
+Proof. exact conv_s_no_settings. Qed.
+
 (* ------------------------------------------------------------------ non-vacuity
    corpus/convert/settings/cases.json, cases 0-2; T_rep / T_cnv / T_pat are the type spaces the REAL
    typify produced under these settings (re-compared on every run). *)
